@@ -54,6 +54,12 @@ def run(ctx):
         trans += r.generated
     ctx.build_harness()
     tpath = os.path.join(ctx.scratch, "c13.ndjson")
+    if ctx.replay and any('"c13.cfg"' in ln for ln in open(ctx.replay)):
+        pm = ctx.validate("C13P_Mon", "C13P_mon.cfg", ctx.replay, name="pmon-replay")
+        for v in pm["viols"]:
+            ctx.report("%s (pipeline replay)" % v["why"], replay_src=ctx.replay, tag="pipe", key="pipeline: " + v["why"])
+        ctx.cov.update({"states": states, "transitions": trans, "traces_validated_against_impl": 1, "samples": ["replay of a sequential crawl"]})
+        return
     if ctx.replay and '"mgr.' in open(ctx.replay).readline():
         manager_table(ctx, quick, ("penalised host",))
         ctx.cov.update({"states": states, "transitions": trans, "traces_validated_against_impl": 1, "samples": ["replay of a per-host table scenario"]})
@@ -84,6 +90,30 @@ def run(ctx):
         ctx.report("%s (scenario %s %s, event %s)" % (v["why"], e["b"], kind, {k: e[k] for k in ("op", "t", "tokens", "rate", "ideal", "pen", "fc", "code") if k in e}),
                    replay_src=rp, tag="scn", key="%s kind=%s" % (v["why"], kind[0]))
     nmgr = manager_table(ctx, quick, ("penalised host", ))
+    # the archiver's use of the limiter: sequential crawls, one refused URL per host, for --max-retry 0 and 1
+    npipe = 0
+    if not ctx.replay:
+        import subprocess
+        from c01 import pipeline
+        ctx.build_harness(("zeno-verif",))
+        procs = [(mr, pipeline(ctx, "mr%d" % mr, "c13", [mr])) for mr in ((0, 1) if quick else (0, 1, 2))]
+        for mr, (p, t, d) in procs:
+            try:
+                p.communicate(timeout=600)
+            except subprocess.TimeoutExpired:
+                p.kill()
+                raise vf.Inconclusive("pipeline run timed out")
+            subprocess.run(["rm", "-rf", d])
+            pev = vf.read_ndjson(t)
+            if not any(e["ev"] == "run.end" for e in pev):
+                raise vf.Inconclusive("pipeline run (max-retry %d) did not end" % mr)
+            npipe += 1
+            pm = ctx.validate("C13P_Mon", "C13P_mon.cfg", t, name="pmon-%d" % mr)
+            if pm["hwm"] < pm["total"]:
+                raise vf.Inconclusive("C13P_Mon stopped at line %d of %d" % (pm["hwm"], pm["total"]))
+            for v in pm["viols"]:
+                e = pev[v["l"] - 1]
+                ctx.report("%s (--max-retry %d, request %s)" % (v["why"], mr, e.get("url")), replay_src=t, tag="pipe", key="pipeline: " + v["why"])
     rel = [e for e in events if e["op"] == "take"]
     ctx.cov.update({
         "states": states, "transitions": trans, "exhaustive": True,
